@@ -857,6 +857,85 @@ Section Consequences.
     intros Hp Hf Hr Hc. unfold dstep, decide. rewrite Hf, Hp, Hr. apply Z.eqb_neq in Hc. rewrite Hc. reflexivity.
   Qed.
 
+  Lemma cons_neq {A} (x : A) (l : list A) : l <> x :: l.
+  Proof. intros E. apply (f_equal (@length A)) in E. cbn in E. lia. Qed.
+
+  Lemma fallback_shape h n now src h' i c tg :
+    fallback reg cloud h n now = RRouted src h' i c tg ->
+    h' = h /\ exists p, ((reg n = Some p /\ src = 2) \/ (reg n = None /\ cloud n = Some p /\ src = 3)) /\
+                       p_id p = i /\ p_client p = c /\ p_target p = tg /\
+                       p_active p = true /\ p_revoked p = false /\ (p_exp p = 0 \/ now <= p_exp p).
+  Proof.
+    unfold fallback, legacy_result.
+    assert (G : forall src0 p, (if negb (p_active p) then RErr EUnavailable
+                 else if p_revoked p then RErr EForbidden
+                 else if negb (N.eqb (p_exp p) 0) && N.ltb (p_exp p) now then RErr EForbidden
+                 else RRouted src0 h (p_id p) (p_client p) (p_target p)) = RRouted src h' i c tg ->
+                 h' = h /\ src0 = src /\ p_id p = i /\ p_client p = c /\ p_target p = tg /\
+                 p_active p = true /\ p_revoked p = false /\ (p_exp p = 0 \/ now <= p_exp p)).
+    { intros src0 p. destruct (p_active p); cbn; [|discriminate]. destruct (p_revoked p); [discriminate|].
+      destruct (N.eqb_spec (p_exp p) 0) as [E0|E0]; cbn.
+      - intros E. inversion E; subst. repeat split; auto.
+      - destruct (N.ltb_spec (p_exp p) now) as [L|L]; cbn; [discriminate|].
+        intros E. inversion E; subst. repeat split; auto. }
+    destruct (reg n) as [p|] eqn:Er.
+    - intros E. destruct (G _ _ E) as (H1 & H2 & H3). split; [exact H1|]. exists p. split; [left; auto|exact H3].
+    - destruct (cloud n) as [p|] eqn:Ec; [|discriminate].
+      intros E. destruct (G _ _ E) as (H1 & H2 & H3). split; [exact H1|]. exists p. split; [right; auto|exact H3].
+  Qed.
+
+  (* the only step that can answer "routed from the repository" is the second read of a lookup, on a record that is
+     active and unexpired at the lookup time; the answer is that record's client and target *)
+  Lemma routed_only_from_active t s t' a h i c tg :
+    decide true true true true reg cloud t s = (t', a) -> out t' = RRouted 1 h i c tg :: out t ->
+    exists m n now, pc t = PCLRec h n i now /\ recs s i = Some m /\ is_active m now = true /\
+                    c = r_client m /\ tg = r_target m.
+  Proof.
+    unfold decide, incr_step, after_incr, rollback_after_setrec, rollback_after_append, rm_end, cl_scan_next, cl_del.
+    destruct (next_fault t) as [f fs].
+    destruct (pc t) as [|sub base tgt|v sub base tgt|i0 n tgt|i0 n tgt|i0 n|k who i0 n st e|i0 n|i0 n|i0 n|i0|i0|i0 n st ex tgt|h0 n i0 now|now todo acc|dels cnt|c0 i0 rest cnt] eqn:Epc.
+    all: repeat match goal with
+                | |- context [match ?x with _ => _ end] => destruct x eqn:?
+                end.
+    all: intros E; inversion E; subst; clear E; cbn [out finish goto finish_created]; intros H.
+    all: try (exfalso; exact (cons_neq _ _ H)).
+    all: try (injection H as H; try discriminate).
+    all: try (exfalso; eapply fallback_not_repo; eassumption).
+    all: try discriminate.
+    inversion H; subst. eauto 10.
+  Qed.
+
+  (* a lookup is answered from a legacy source only when the repository has no mapping for the name at that read: no index
+     entry (first read) or no record behind the index entry (second read); the answer is then the registry's entry for that
+     very name, else cloud control's, and only if that entry is active, not revoked and unexpired *)
+  Lemma legacy_answer_only_without_repository_mapping t s t' a src h i c tg :
+    decide true true true true reg cloud t s = (t', a) -> out t' = RRouted src h i c tg :: out t -> src <> 1 ->
+    exists n now,
+      ((pc t = Idle /\ n = extractDomain h /\ idx s n = None) \/ (exists j, pc t = PCLRec h n j now /\ recs s j = None)) /\
+      exists p, ((reg n = Some p /\ src = 2) \/ (reg n = None /\ cloud n = Some p /\ src = 3)) /\
+                p_id p = i /\ p_client p = c /\ p_target p = tg /\
+                p_active p = true /\ p_revoked p = false /\ (p_exp p = 0 \/ now <= p_exp p).
+  Proof.
+    unfold decide, incr_step, after_incr, rollback_after_setrec, rollback_after_append, rm_end, cl_scan_next, cl_del.
+    destruct (next_fault t) as [f fs].
+    destruct (pc t) as [|sub base tgt|v sub base tgt|i0 n tgt|i0 n tgt|i0 n|k who i0 n st e|i0 n|i0 n|i0 n|i0|i0|i0 n st ex tgt|h0 n i0 now|now todo acc|dels cnt|c0 i0 rest cnt] eqn:Epc.
+    all: repeat match goal with
+                | |- context [match ?x with _ => _ end] => destruct x eqn:?
+                end.
+    all: intros E; inversion E; subst; clear E; cbn [out finish goto finish_created]; intros H Hsrc.
+    all: try (exfalso; exact (cons_neq _ _ H)).
+    all: try (injection H as H; try discriminate).
+    all: try (inversion H; subst; contradiction).
+    all: try discriminate.
+    all: match goal with
+         | H : fallback reg cloud ?h0 ?n0 ?now0 = RRouted _ _ _ _ _ |- _ =>
+             destruct (fallback_shape _ _ _ _ _ _ _ _ H) as (-> & p & Hp); exists n0, now0; split; [|exists p; exact Hp]
+         end.
+    - left. auto.
+    - right. eauto.
+  Qed.
+
+
   Section Reach.
     Variables (ts : list thr) (sched : list nat).
     Hypothesis Hfresh : forall t, In t ts -> fresh_thr t.
@@ -885,6 +964,13 @@ Section Consequences.
       recs (fst s) (resolve t r) = Some m -> (cl t <= 0)%Z ->
       dstep true true true true reg cloud t (fst s) = (finish t fs (RErr EForbidden), fst s).
     Proof. apply unbound_delete_refused. exact reach_shinv. Qed.
+
+    (* in reachable states the second read of a lookup is for the name the Host resolves to *)
+    Lemma reach_lookup_pc t h n j now : In t (snd s) -> pc t = PCLRec h n j now -> n = extractDomain h.
+    Proof.
+      intros Ht Hp. destruct (ginv_all_schedules reg cloud ts sched Hfresh) as (_ & _ & _ & Hth).
+      destruct (Hth t Ht) as (_ & _ & Hpc). rewrite Hp in Hpc. cbn in Hpc. tauto.
+    Qed.
 
     Lemma single_owner :
       (forall n, idx (fst s) n = holder n (log (fst s))) /\
